@@ -67,6 +67,7 @@ class FieldInvariants:
         top = AV(bits)
         # constructor / constant stores first
         dyn_fns = set()
+        const_vals = []
         for fname, bb, line, rv, kind in stores:
             if kind in ('addr_taken', 'through'):
                 if kind == 'addr_taken':
@@ -76,6 +77,7 @@ class FieldInvariants:
                 continue
             if rv is not None and rv['k'] == 'use' and rv['op']['k'] == 'const':
                 v = AV.const(bits, rv['op']['val'])
+                const_vals.append(v)
                 cur = v if cur is None else cur.join(v)
                 sites.append('%s:%d := %#x' % (fname, line, rv['op']['val']))
             else:
@@ -118,6 +120,30 @@ class FieldInvariants:
                 w = AV(bits, 0, mask(bits), new.m0, 0).reduce()
                 new = w if w is not None else top
             cur = new
+        # narrowing: a widened result W is inductive but may be much larger than needed (a counter bounded by a guard
+        # climbs one step per round until it is widened to "anything").  X = F(W) is accepted when it is itself
+        # inductive: F(X) below X
+        def F(x):
+            self.in_progress[key] = x
+            out = None
+            for fname in sorted(dyn_fns):
+                for av in self._store_values(fname, owner, field, bits):
+                    out = av if out is None else out.join(av)
+            for v0 in const_vals:
+                out = v0 if out is None else out.join(v0)
+            return out if out is not None else top
+
+        def leq(a_, b_):
+            return a_.join(b_).key() == b_.key()
+        if cur is not None and dyn_fns:
+            for _ in range(3):
+                x = F(cur)
+                if x.key() == cur.key() or not leq(x, cur):
+                    break
+                if leq(F(x), x):
+                    cur = x
+                else:
+                    break
         self.in_progress.pop(key, None)
         self.cache[key] = cur
         self.why[key] = sites
